@@ -33,6 +33,9 @@ func (a *application) start(mode gen.ApplicationMode, options gen.ApplicationOpt
 		return gen.ErrApplicationState
 	}
 
+	// forget the reason of the previous run
+	a.reason = nil
+
 	// build app env
 	appEnv := make(map[gen.Env]any)
 	// 1. from core env
@@ -130,8 +133,16 @@ func (a *application) stop(force bool, timeout time.Duration) error {
 	lib.VerifPoint("app.stop.mode", a)
 	a.mode = gen.ApplicationModeTemporary
 
-	lib.VerifPoint("app.stop.tell", a)
+	// the reason must be in place before the first member can terminate:
+	// the last one hands it to the Terminate callback
+	lib.VerifPoint("app.stop.reason", a)
+	if force {
+		a.reason = gen.TerminateReasonKill
+	} else {
+		a.reason = gen.TerminateReasonShutdown
+	}
 
+	lib.VerifPoint("app.stop.tell", a)
 	// see start: Kill must not be called while ranging over the group
 	for _, pid := range a.members() {
 		if force {
@@ -139,13 +150,6 @@ func (a *application) stop(force bool, timeout time.Duration) error {
 		} else {
 			a.node.SendExit(pid, gen.TerminateReasonShutdown)
 		}
-	}
-
-	lib.VerifPoint("app.stop.reason", a)
-	if force {
-		a.reason = gen.TerminateReasonKill
-	} else {
-		a.reason = gen.TerminateReasonShutdown
 	}
 
 	lib.VerifPoint("app.stop.wait", a)
